@@ -208,3 +208,45 @@ func joinIdentity(c *Ctx, idx int) {
 		c.Nontrivial(jc.lhs, fmt.Sprint(jc.n))
 	}
 }
+
+// wideJoin: a join-shaped multi-select with 70 or 130 columns, each with its own pair of names
+// (let $kN = cN in let $hitN = $.dim[?id == $kN] in $hitN[0].name): analyses that number variable
+// names per expression (bit sets of 64, small fixed tables) run out of room exactly when a query has
+// many names, and then treat the late ones as absent.
+func wideJoinN() int { return 4 }
+
+func wideJoinRun(prop string) func(c *Ctx, idx int) {
+	return func(c *Ctx, idx int) {
+		cols := []int{8, 63, 70, 130}[idx]
+		var b strings.Builder
+		b.WriteString(`{"dim":[{"id":0,"name":"zero"},{"id":1,"name":"one"},{"id":2,"name":"two"},{"id":3,"name":"three"}],"rows":[`)
+		for r := 0; r < 5; r++ {
+			if r > 0 {
+				b.WriteByte(',')
+			}
+			b.WriteByte('{')
+			for k := 0; k < cols; k++ {
+				if k > 0 {
+					b.WriteByte(',')
+				}
+				fmt.Fprintf(&b, `"c%d":%d`, k, (r*(k+3)+k)%4)
+			}
+			b.WriteByte('}')
+		}
+		b.WriteString(`]}`)
+		doc, err := ref.FromJSON(b.String())
+		if err != nil {
+			panic(err)
+		}
+		var parts []string
+		for k := 0; k < cols; k++ {
+			parts = append(parts, fmt.Sprintf("let $k%d = c%d in let $hit%d = $.dim[?id == $k%d] in $hit%d[0].name", k, k, k, k, k))
+		}
+		for _, text := range []string{"rows[*].[" + strings.Join(parts, ", ") + "]", "map(&[" + strings.Join(parts, ", ") + "], rows)", "rows[1:].[" + strings.Join(parts[len(parts)-6:], ", ") + ", " + strings.Join(parts, ", ") + "] | [-1]"} {
+			m, _ := c.CheckModel(prop, text, doc, ref.ToGo(doc, ref.JSONNumber), CheckOpts{Compiled: true, Features: map[string]string{"stream": "wide-joins", "columns": fmt.Sprint(cols)}})
+			if !m.Unspec {
+				c.Nontrivial(clipS(text, 60), fmt.Sprint(cols))
+			}
+		}
+	}
+}
